@@ -707,6 +707,10 @@ mod huffman {
                         // Promote the valid bits and consult the map; if it only consumes valid bits,
                         // we are able to ship the result and advance. If it consumes more bits than
                         // we have, the data are mysteriously invalid.
+                        if self.pending_bits == 0 {
+                            // The item ended exactly at a codeword boundary.
+                            return None;
+                        }
                         let byte = (self.pending_byte << (8 - self.pending_bits)) as usize;
                         match &map[byte] {
                             Decode::Void => {
